@@ -10,7 +10,9 @@ from metomi.isodatetime.parsers import TimePointParser
 PROP = "C07"
 _P = [TimePointParser(allow_truncated=True, default_to_unknown_time_zone=True),
       TimePointParser(allow_truncated=True, assumed_time_zone=(5, 30)),
-      TimePointParser(allow_truncated=True, num_expanded_year_digits=0)]
+      TimePointParser(allow_truncated=True, num_expanded_year_digits=0),
+      # a parser-level dump format must not override dump_as_parsed
+      TimePointParser(allow_truncated=True, default_to_unknown_time_zone=True, dump_format="CCYY-MM-DDThh:mm:ssZ")]
 BASIC = ["-YYMM", "-YY", "--MMDD", "--MM", "---DD", "YYMMDD", "YYDDD", "-DDD", "YYWwwD", "YYWww", "-zWwwD", "-zWww", "-WwwD", "-Www", "-W-D"]
 EXT = ["-YY-MM", "--MM-DD", "YY-MM-DD", "YY-DDD", "-DDD", "YY-Www-D", "YY-Www", "-z-WwwD", "-z-Www", "-Www-D"]
 LED = lambda f: f.startswith("-") or f == ""     # noqa: E731  '-'-led or empty truncated dates accept truncated times
@@ -66,12 +68,12 @@ def run_case(case, rec, cid):
                     lg=p.get_largest_truncated_property_name() or "", sm=p.get_smallest_missing_property_name() or "")
     st, v = outcome(f)
     if st == "ok":
-        rec.ev("ParseTrunc", cid, gt=gt, pz=["unknown", "assumed", "local"][case["parser"]], text=render.codes(text), ok=True, cls="", **v)
+        rec.ev("ParseTrunc", cid, gt=gt, pz=["unknown", "assumed", "local", "unknown"][case["parser"]], text=render.codes(text), ok=True, cls="", **v)
     else:
         from harness.common import I
         q0 = {k: -1 for k in ("yc", "yd", "mo", "woy", "doy", "dom", "dow", "hh", "mi", "ss")}
         q0.update(hhus=0, mius=0, ssus=0, zh=0, zm=0, zu=True, trunc=True)
-        rec.ev("ParseTrunc", cid, gt=gt, pz=["unknown", "assumed", "local"][case["parser"]], text=render.codes(text), ok=False, cls=type(v).__name__, q=q0, trunc=False, dumped=[], lg="", sm="")
+        rec.ev("ParseTrunc", cid, gt=gt, pz=["unknown", "assumed", "local", "unknown"][case["parser"]], text=render.codes(text), ok=False, cls=type(v).__name__, q=q0, trunc=False, dumped=[], lg="", sm="")
     return True
 
 
@@ -116,7 +118,7 @@ def expand(job):
         if MEANING[sp] == "360day":
             gt["doy"] = min(gt["doy"], 360)
             gt["woy"] = min(gt["woy"], 51)      # a 360-day week-year has 51 or 52 weeks (the truncated year decides)
-        yield {"gt": gt, "parser": rnd.randrange(3), "mode": sp}
+        yield {"gt": gt, "parser": rnd.randrange(4), "mode": sp}
 
 
 def jobs(tier, seed):
